@@ -834,26 +834,58 @@ func apkDigestedDirectoryIsWrittenDirectory(p *Prog) (out []gFinding) {
 	if len(p.callsIn(sign, wd)) == 0 {
 		return []gFinding{{Key: "apk (*Digest).Sign writes the end of directory with WriteDirectory", Pos: p.Pos(sign.Pos()), OK: false, Detail: "no call of Directory.WriteDirectory found in Sign: the rule's premise is gone, re-derive it"}}
 	}
-	// which value of which bool parameter of Finish leads to WriteDirectory?
-	pi, want, found := -1, false, false
-	for i, pa := range fin.Params {
-		if !isBool(pa.Type()) {
-			continue
-		}
-		for _, truth := range []bool{true, false} {
-			g := Guard{Name: "flag", Match: func(f Fact) bool { return f.V == ssa.Value(pa) && f.Kind == kindBool(truth) }}
-			all := true
-			calls := p.callsIn(fin, wd)
-			for _, ci := range calls {
-				if missing, _ := p.unguardedFromEntry(fin, ci, g); len(missing) > 0 {
-					all = false
+	// which value of which bool parameter of Finish leads to WriteDirectory? (directly, or in a helper of
+	// the package that is handed the parameter)
+	var selects func(fn *ssa.Function, depth int) (int, bool, bool)
+	selects = func(fn *ssa.Function, depth int) (int, bool, bool) {
+		for i, pa := range fn.Params {
+			if !isBool(pa.Type()) {
+				continue
+			}
+			for _, truth := range []bool{true, false} {
+				g := Guard{Name: "flag", Match: func(f Fact) bool { return f.V == ssa.Value(pa) && f.Kind == kindBool(truth) }}
+				all := true
+				calls := p.callsIn(fn, wd)
+				for _, ci := range calls {
+					if missing, _ := p.unguardedFromEntry(fn, ci, g); len(missing) > 0 {
+						all = false
+					}
+				}
+				if all && len(calls) > 0 {
+					return i, truth, true
 				}
 			}
-			if all && len(calls) > 0 {
-				pi, want, found = i, truth, true
+		}
+		if depth >= 2 {
+			return -1, false, false
+		}
+		for _, b := range fn.Blocks {
+			for _, in := range b.Instrs {
+				ci, ok := in.(ssa.CallInstruction)
+				if !ok {
+					continue
+				}
+				g := ci.Common().StaticCallee()
+				if g == nil || pkgOf(g) != pkgOf(fn) || len(g.Blocks) == 0 {
+					continue
+				}
+				gi, gw, gf := selects(g, depth+1)
+				if !gf {
+					continue
+				}
+				// the helper's flag is a parameter of fn, handed through unchanged
+				if pa, ok := ci.Common().Args[gi].(*ssa.Parameter); ok {
+					for i, fp := range fn.Params {
+						if fp == pa {
+							return i, gw, true
+						}
+					}
+				}
 			}
 		}
+		return -1, false, false
 	}
+	pi, want, found := selects(fin, 0)
 	if !found {
 		return []gFinding{{Key: "merkleHasher.Finish serialises the directory with WriteDirectory on one side of a flag", Pos: p.Pos(fin.Pos()), OK: false, Detail: "no bool parameter of Finish decides whether WriteDirectory is called"}}
 	}
